@@ -17,13 +17,16 @@ package invoices_test
 // per-channel counters), keys that differ in one component only.  The Reset record reports the classes of the keys used.
 //
 // The interceptor client (the REAL HtlcModificationInterceptor with a
-// registered client) answers CancelSet for the HTLCs whose event has cs = 1.
+// registered client) answers CancelSet for the calls whose event has cs = 1
+// and AmountPaid = ma units for those with ma != 0.  For a Replay event cs / ma
+// are the client's answer to THAT call (the other parameters are those of the
+// replayed HTLC).
 //
 // The projection of the invoices is read back from the STORE
 // (InvoiceDB.LookupInvoice) after every event.
 //
 // Trace format (one NDJSON record per step, every field on every line):
-//   a th c k pl h ad amt tot exp set good cs ht k1 k2 kp   the event (as generated)
+//   a th c k pl h ad amt tot exp set good cs ma ht k1 k2 kp   the event (as generated)
 //   ck[c] = {ch id n}                                   Reset: value classes of the circuit keys used
 //   res why preok err                                   direct answer
 //   hodl[c] = {kd why preok}                            resolutions that arrived on hodl channels
@@ -77,6 +80,7 @@ type c15Ev struct {
 	Set  string `json:"set"`
 	Good int    `json:"good"`
 	Cs   int    `json:"cs"`
+	Ma   int    `json:"ma"`
 	Ht   int    `json:"ht"`
 	K1   string `json:"k1"`
 	K2   string `json:"k2"`
@@ -86,6 +90,12 @@ type c15Ev struct {
 type c15AmpSet struct {
 	id       [32]byte
 	children map[int]*amp.Child // members only
+}
+
+// c15Ic is an answer of the interceptor client: CancelSet and/or AmountPaid (units, 0 = unchanged).
+type c15Ic struct {
+	cs bool
+	ma int
 }
 
 type c15Msg struct {
@@ -102,7 +112,7 @@ type c15Run struct {
 	keys   [c15NC + 1]invpkg.CircuitKey // concrete circuit key of circuit c (0 unused)
 	keyIdx map[invpkg.CircuitKey]int
 	armMu  sync.Mutex
-	armed  map[invpkg.CircuitKey]bool // HTLCs for which the interceptor client answers CancelSet
+	armed  map[invpkg.CircuitKey]c15Ic // the interceptor client's answer for the call in flight under that key
 	clk    *clock.TestClock
 	cfg    *invpkg.RegistryConfig
 	sig    chan time.Duration
@@ -239,7 +249,7 @@ func c15NewRun(t *testing.T, store string, k1, k2, kp string, seed int64) *c15Ru
 	}
 	r := &c15Run{t: t, kinds: [2]string{k1, k2}, kp: kp, memo: map[int]*c15Ev{},
 		hashOf: map[int]lntypes.Hash{}, sets: map[string]*c15AmpSet{},
-		keyIdx: map[invpkg.CircuitKey]int{}, armed: map[invpkg.CircuitKey]bool{}}
+		keyIdx: map[invpkg.CircuitKey]int{}, armed: map[invpkg.CircuitKey]c15Ic{}}
 	for c := 1; c <= c15NC; c++ {
 		r.keys[c] = c15KeyOf(kp, c)
 		r.keyIdx[r.keys[c]] = c
@@ -293,7 +303,8 @@ func c15NewRun(t *testing.T, store string, k1, k2, kp string, seed int64) *c15Ru
 	r.idb = idb
 
 	// the real interceptor service with a registered client that answers
-	// CancelSet for the armed circuit keys and leaves every other HTLC alone
+	// what is armed for the circuit key (CancelSet and/or a modified amount)
+	// and leaves every other HTLC alone
 	icpt := invpkg.NewHtlcModificationInterceptor()
 	if err := icpt.Start(); err != nil {
 		t.Fatal(err)
@@ -303,8 +314,10 @@ func c15NewRun(t *testing.T, store string, k1, k2, kp string, seed int64) *c15Ru
 		func(req invpkg.HtlcModifyRequest) (*invpkg.HtlcModifyResponse, error) {
 			r.armMu.Lock()
 			defer r.armMu.Unlock()
+			ic := r.armed[req.ExitHtlcCircuitKey]
 			return &invpkg.HtlcModifyResponse{
-				CancelSet: r.armed[req.ExitHtlcCircuitKey],
+				AmountPaid: lnwire.MilliSatoshi(ic.ma) * c15Unit,
+				CancelSet:  ic.cs,
 			}, nil
 		},
 	)
@@ -473,9 +486,9 @@ func (r *c15Run) call(p *c15Ev, ht int) (invpkg.HtlcResolution, lntypes.Hash, er
 		payload.amp = record.NewAMP(share, s.id, uint32(p.C))
 	}
 	key := r.keys[p.C]
-	if p.Cs == 1 {
+	if p.Cs == 1 || p.Ma != 0 {
 		r.armMu.Lock()
-		r.armed[key] = true
+		r.armed[key] = c15Ic{cs: p.Cs == 1, ma: p.Ma}
 		r.armMu.Unlock()
 		defer func() {
 			r.armMu.Lock()
@@ -669,7 +682,7 @@ func (r *c15Run) barrier() {
 
 func (r *c15Run) base15(ev *c15Ev, th int) verifkit.Rec {
 	return verifkit.Rec{"a": ev.A, "th": th, "c": ev.C, "k": ev.K, "pl": ev.Pl, "h": ev.H, "ad": ev.Ad,
-		"amt": ev.Amt, "tot": ev.Tot, "exp": ev.Exp, "set": ev.Set, "good": ev.Good, "cs": ev.Cs, "ht": ev.Ht,
+		"amt": ev.Amt, "tot": ev.Tot, "exp": ev.Exp, "set": ev.Set, "good": ev.Good, "cs": ev.Cs, "ma": ev.Ma, "ht": ev.Ht,
 		"k1": r.kinds[0], "k2": r.kinds[1], "kp": r.kp, "ck": r.keyClasses()}
 }
 
@@ -695,12 +708,13 @@ func (r *c15Run) step(out *verifkit.Writer, ev *c15Ev) {
 		r.hashOf[ev.C] = hash
 		c15Describe(rec, res, err, hash)
 	case "Replay":
-		p := r.memo[ev.C]
-		if p == nil {
+		if r.memo[ev.C] == nil {
 			r.t.Fatalf("replay of unknown circuit %d", ev.C)
 		}
-		// echo the parameters of the replayed HTLC
-		for _, f := range []string{"pl", "h", "ad", "amt", "tot", "exp", "set", "good", "cs"} {
+		// the parameters of the replayed HTLC with the interceptor client's
+		// answer to this call; echo them
+		p := c15Replayed(r.memo[ev.C], ev)
+		for _, f := range []string{"pl", "h", "ad", "amt", "tot", "exp", "set", "good", "cs", "ma"} {
 			rec[f] = r.base15(p, 0)[f]
 		}
 		res, hash, err := r.call(p, ev.Ht)
@@ -730,6 +744,20 @@ func (r *c15Run) step(out *verifkit.Writer, ev *c15Ev) {
 	c15Hodl(rec, got)
 	r.snapshot(rec)
 	out.Emit(rec)
+}
+
+// c15Replayed: the HTLC of memo sent again, the interceptor client answering as the Replay event ev says.
+func c15Replayed(memo, ev *c15Ev) *c15Ev {
+	p := *memo
+	p.Cs, p.Ma = ev.Cs, ev.Ma
+	return &p
+}
+
+// c15CsOK: the interceptor client may answer CancelSet for HTLC p aimed at a slot of kind `kind` (only for an
+// HTLC whose reference is unambiguous: no MPP record / path id, or the right address).
+func c15CsOK(p *c15Ev, kind string, k int) bool {
+	return kind != "keysend" &&
+		(p.Pl == "legacy" || ((p.Pl == "mpp" || p.Pl == "blinded" || p.Pl == "amp") && p.Ad == k))
 }
 
 // c15Stores: VERIF_STORES = "kv", "sql" or "kv,sql"; each store gets its own trace file.
@@ -859,9 +887,33 @@ func (r *c15Run) randomHtlc(c int, ht int) *c15Ev {
 	}
 	// the interceptor client cancels the set (only for an HTLC whose reference
 	// is unambiguous: no MPP record / path id, or the right address)
-	if rng.Intn(12) == 0 && kind != "keysend" &&
-		(ev.Pl == "legacy" || ((ev.Pl == "mpp" || ev.Pl == "blinded" || ev.Pl == "amp") && ev.Ad == k)) {
+	if rng.Intn(12) == 0 && c15CsOK(ev, kind, k) {
 		ev.Cs = 1
+	}
+	// ... or replaces the amount
+	if rng.Intn(10) == 0 {
+		ev.Ma = amts[rng.Intn(4)]
+	}
+	return ev
+}
+
+// randomReplay: the HTLC of circuit c is sent again; the interceptor client repeats its first answer (2/3) or
+// answers CancelSet / a modified amount at random.
+func (r *c15Run) randomReplay(c, ht int) *c15Ev {
+	m := r.memo[c]
+	ev := &c15Ev{A: "Replay", C: c, Pl: "none", Set: "none", Good: 1, Ht: ht, Cs: m.Cs, Ma: m.Ma}
+	if r.rng.Intn(3) == 0 {
+		k := m.H
+		if m.Pl == "amp" {
+			k = m.Ad
+		}
+		ev.Cs, ev.Ma = 0, 0
+		if k >= 1 && k <= 2 && c15CsOK(m, r.kinds[k-1], k) && r.rng.Intn(2) == 0 {
+			ev.Cs = 1
+		}
+		if r.rng.Intn(2) == 0 {
+			ev.Ma = []int{3, 2, 4, 5}[r.rng.Intn(4)]
+		}
 	}
 	return ev
 }
@@ -907,8 +959,8 @@ func c15Free(t *testing.T, store string) {
 					nops := 1 + rng.Intn(3)
 					for i := 0; i < nops; i++ {
 						c := cs[rng.Intn(2)]
-						if r.memo[c] != nil {
-							ops[link] = append(ops[link], &c15Ev{A: "Replay", C: c, Pl: "none", Set: "none", Good: 1, Ht: ht})
+						if m := r.memo[c]; m != nil {
+							ops[link] = append(ops[link], r.randomReplay(c, ht))
 							continue
 						}
 						ev := r.randomHtlc(c, ht)
@@ -933,8 +985,11 @@ func c15Free(t *testing.T, store string) {
 						<-start
 						for _, ev := range ops[link] {
 							p := r.memo[ev.C]
+							if ev.A == "Replay" {
+								p = c15Replayed(p, ev)
+							}
 							rec := r.base15(ev, link)
-							for _, f := range []string{"pl", "h", "ad", "amt", "tot", "exp", "set", "good", "cs"} {
+							for _, f := range []string{"pl", "h", "ad", "amt", "tot", "exp", "set", "good", "cs", "ma"} {
 								rec[f] = r.base15(p, 0)[f]
 							}
 							c15Blank(rec)
@@ -992,7 +1047,7 @@ func c15Free(t *testing.T, store string) {
 							continue
 						}
 						sortInts(cs)
-						ev.A, ev.C = "Replay", cs[rng.Intn(len(cs))]
+						ev = r.randomReplay(cs[rng.Intn(len(cs))], ht)
 					}
 					r.step(out, ev)
 				}
